@@ -582,6 +582,8 @@ class FlatFn:
                     vals.append(c.args[1])
                 elif c.func.attr in ("extend", "update") and len(c.args) == 1:
                     vals.extend(ctor_values(c.args[0]))
+                elif c.func.attr == "fill" and len(c.args) == 1:
+                    vals[:] = [c.args[0]]          # np array filled with one value: replaces what the constructor put in
             if isinstance(st, ast.AugAssign) and isinstance(st.op, ast.Add) and isinstance(st.target, ast.Name) \
                     and self.root(st.target.id, st) in roots:
                 vals.extend(ctor_values(st.value))
